@@ -1,6 +1,7 @@
 package main
 
 import (
+	"encoding/json"
 	"fmt"
 	"go/ast"
 	"go/parser"
@@ -290,18 +291,54 @@ func regexTableV(rs []srcRegex, defName string) (string, error) {
 		have[r.Name] = true
 	}
 	for _, n := range modelRegexes {
+		src := n
 		if !have[n] {
-			return "", fmt.Errorf("the source no longer compiles an expression named %s (the parser model reads it)", n)
+			// renamed? an expression under a name the model does not know whose text is the one this
+			// name had on the pinned tree takes its place
+			src = ""
+			if want, ok := pinnedRegexText()[n]; ok {
+				for _, r := range rs {
+					known := false
+					for _, m := range modelRegexes {
+						known = known || m == r.Name
+					}
+					if !known && r.Expr == want {
+						src = r.Name
+						break
+					}
+				}
+			}
+			if src == "" {
+				return "", fmt.Errorf("the source no longer compiles an expression named %s, nor the same expression under another name (the parser model reads it)", n)
+			}
 		}
-		fields = append(fields, fmt.Sprintf("t_%s := %s_%s", n, defName, n))
+		fields = append(fields, fmt.Sprintf("t_%s := %s_%s", n, defName, src))
 	}
 	fmt.Fprintf(&sb, "Definition %s : retab := {|\n  %s |}.\n", defName, strings.Join(fields, ";\n  "))
 	return sb.String(), nil
 }
 
+// pinnedRegexText: name -> expression text on the pinned tree (lib/pinned_regexes.json, written once by
+// the REGEXGEN runner with VH_REGEX_PIN=1); only used to recognise a renamed expression.
+func pinnedRegexText() map[string]string {
+	m := map[string]string{}
+	if b, err := os.ReadFile(verifRoot + "/lib/pinned_regexes.json"); err == nil {
+		_ = json.Unmarshal(b, &m)
+	}
+	return m
+}
+
 func runRegexGen(o *Options) *Result {
 	res := NewResult()
 	rs, err := collectRegexes(repoDirOf())
+	if err == nil && os.Getenv("VH_REGEX_PIN") != "" {
+		m := map[string]string{}
+		for _, r := range rs {
+			m[r.Name] = r.Expr
+		}
+		b, _ := json.MarshalIndent(m, "", " ")
+		err = os.WriteFile(o.Verif+"/lib/pinned_regexes.json", b, 0o644)
+	}
 	if err == nil {
 		var txt string
 		name := os.Getenv("VH_REGEX_DEF")
